@@ -3,7 +3,7 @@
    nat, Z, positive, string, ascii stay the extracted inductives.  No Extract Constant. *)
 From Coq Require Extraction ExtrOcamlBasic.
 From Coq Require Import ZArith.
-From PS Require Import Base Str Bag RegAccess Sim Program Isa Graph Loader Errors Flow Cli Diag QueueSpec LoaderSpec Domain C12Exact.
+From PS Require Import Base Str Bag RegAccess Sim Program Isa Graph Loader Errors Flow Cli Diag QueueSpec LoaderSpec Domain C12Exact C10Exact.
 Extraction Language OCaml.
 Set Extraction Optimize.
 Extraction "../ocaml/model.ml"
@@ -22,5 +22,5 @@ Extraction "../ocaml/model.ml"
   QueueSpec.a_init QueueSpec.a_can_access QueueSpec.a_dequeue QueueSpec.a_empty QueueSpec.abs_queue
   LoaderSpec.C09_checkb LoaderSpec.C10_checkb LoaderSpec.C11_error_ok LoaderSpec.C11_accept_ok
   LoaderSpec.C12_order_checkb LoaderSpec.C12_classify_checkb LoaderSpec.C12_parts_checkb
-  C12Exact.C12_listing_checkb C12Exact.C12_parts_listing_checkb
+  C12Exact.C12_listing_checkb C12Exact.C12_parts_listing_checkb C10Exact.C10_judgeb C10Exact.C11_accept_judgeb
   BinInt.Z.of_nat BinInt.Z.to_nat BinInt.Z.opp.
